@@ -46,6 +46,8 @@ type Result struct {
 	// ExportFns / ImportFns: keeper functions reached (for the report)
 	ExportFns map[string][]string
 	ImportFns map[string][]string
+	// ImportCalls: every function of the module visited from AppModule.InitGenesis (with or without store operation)
+	ImportCalls map[string][]string
 	// NilMapWrites: "module.Function" of functions on the export path that declare `var m map[..]..`
 	// without initialiser and later assign m[k] = v (a panic as soon as the statement executes)
 	NilMapWrites []string
@@ -135,7 +137,7 @@ var readOps = map[string]bool{"Get": true, "Has": true, "Iterator": true, "Rever
 var writeOps = map[string]bool{"Set": true, "Delete": true}
 
 func Analyze(repo string) (*Result, error) {
-	res := &Result{ExportFns: map[string][]string{}, ImportFns: map[string][]string{}}
+	res := &Result{ExportFns: map[string][]string{}, ImportFns: map[string][]string{}, ImportCalls: map[string][]string{}}
 	ents, err := os.ReadDir(filepath.Join(repo, "x"))
 	if err != nil {
 		return nil, err
@@ -399,8 +401,16 @@ func analyzeModule(repo, mod string, res *Result) {
 	sort.Strings(res.NilMapWrites)
 	imp := map[string]bool{}
 	reached = nil
-	walk(appInit, "write", map[*fn]*memoT{}, imp)
+	impMemo := map[*fn]*memoT{}
+	walk(appInit, "write", impMemo, imp)
 	res.ImportFns[mod] = uniq(reached)
+	var visited []string
+	for f := range impMemo {
+		if f != appInit {
+			visited = append(visited, f.name)
+		}
+	}
+	res.ImportCalls[mod] = uniq(visited)
 
 	// used: mentioned (directly or through pure helpers) by any keeper function with a store op
 	used := map[string]bool{}
